@@ -237,7 +237,12 @@ func (ss *Sorts) build(t types.Type, key string) *Sort {
 		}
 		es := ss.Of(el)
 		if es.Kind == KOpaque {
-			return ss.opaque("P"+strings.TrimPrefix(es.Name, "U_"), t)
+			if _, isIface := el.Underlying().(*types.Interface); isIface {
+				return ss.opaque("P"+strings.TrimPrefix(es.Name, "U_"), t)
+			}
+			if _, isTP := el.(*types.TypeParam); isTP {
+				return ss.opaque("P"+strings.TrimPrefix(es.Name, "U_"), t)
+			}
 		}
 		return ss.mkPtr(es, t)
 	case *types.Slice:
